@@ -198,6 +198,8 @@ func (p *provider) ruleSetsUpdated(ruleSets []*rule_config.RuleSet, state Bucket
 	removedIDs := slicex.Subtract(oldIDs, currentIDs)
 	newIDs := slicex.Subtract(currentIDs, oldIDs)
 
+	var errs error
+
 	for _, ID := range removedIDs {
 		conf := &rule_config.RuleSet{
 			MetaData: rule_config.MetaData{
@@ -206,8 +208,11 @@ func (p *provider) ruleSetsUpdated(ruleSets []*rule_config.RuleSet, state Bucket
 			},
 		}
 
+		// a rule set, which cannot be processed, must not prevent the processing of the other ones
 		if err := p.p.OnDeleted(conf); err != nil {
-			return err
+			errs = errors.Join(errs, err)
+
+			continue
 		}
 
 		delete(state, ID)
@@ -236,13 +241,15 @@ func (p *provider) ruleSetsUpdated(ruleSets []*rule_config.RuleSet, state Bucket
 		}
 
 		if err != nil {
-			return err
+			errs = errors.Join(errs, err)
+
+			continue
 		}
 
 		state[ruleSet.Source] = ruleSet.Hash
 	}
 
-	return nil
+	return errs
 }
 
 func (p *provider) getBucketState(key string) BucketState {
